@@ -1,5 +1,7 @@
 import Lean.Data.Json
 import SpoxModel.Model.Opset
+import SpoxModel.Model.OpsetQualify
+import SpoxModel.Model.OpsetInits
 /-! Line-protocol handler for property C09 (model side of the correspondence).
 
 Requests (`t`):
@@ -8,6 +10,10 @@ Requests (`t`):
 * `accepts` `{d,o,s,v}`                      → `{accepts: bool}`
 * `model`   `{graph: G}`                     → imports, every node's opsets and decision, function imports
   with `G = {nodes:[N…]}`, `N = {k, d, o, v, np, c, subs:[G…], id, imports, hd}`.
+* `qualify` `{p, ins:[s…], outs:[s…], nodes:[{ins:[s…], outs:[s…]}…]}` → `{nodes:[{ins,outs}…], introduced:[s…], endsClean: bool, noSep:[bool…]}`
+  (the renaming step of `adapt_node`, `Opset.Qualify.qualify`; `endsClean` = `endsCleanB p`, `noSep` = `noSepB` of every introduced name)
+* `inits`   `{inputs:[s…], inits:[s…], n}` → `{inputs, inits, nodes:[["c",name]|["o",k]…]}` (`_initializers_to_constants`
+  on a graph with `n` original nodes)
 -/
 namespace Drv.C09
 open Lean Opset
@@ -81,6 +87,15 @@ def entryJson (e : Entry) : Json :=
   Json.mkObj ([("id", toJson e.node.id), ("opsets", reqsJson e.opsets),
                ("qualified", toJson true)] ++ decJson e.decision ++ mustChangeJson e)
 
+def parseStrs (j : Json) : Except String (List Qualify.Nm) := do
+  let a ← j.getArr?
+  a.toList.mapM (fun x => do return (← x.getStr?).toList)
+
+def parseQNode (j : Json) : Except String Qualify.QNode := do
+  return ⟨← parseStrs (← j.getObjVal? "ins"), ← parseStrs (← j.getObjVal? "outs")⟩
+
+def strsJson (l : List Qualify.Nm) : Json := Json.arr (l.map (fun n => Json.str (String.ofList n))).toArray
+
 def handle (req : Json) : Json :=
   match (do
     let t ← req.getObjValAs? String "t"
@@ -115,6 +130,27 @@ def handle (req : Json) : Json :=
           ("merged", match emittedFunctions genFacts extra g with
                      | none => Json.null
                      | some r => Json.arr (r.map (fun (p : FKey × FuncDef) => Json.arr #[Json.str p.1.1, Json.str p.1.2])).toArray)]
+    | "qualify" =>
+        let p := (← req.getObjValAs? String "p").toList
+        let ins ← parseStrs (← req.getObjVal? "ins")
+        let outs ← parseStrs (← req.getObjVal? "outs")
+        let nodes ← (← (← req.getObjVal? "nodes").getArr?).toList.mapM parseQNode
+        return Json.mkObj [
+          ("nodes", Json.arr ((Qualify.qualify p ins outs nodes).map (fun (nd : Qualify.QNode) =>
+              Json.mkObj [("ins", strsJson nd.ins), ("outs", strsJson nd.outs)])).toArray),
+          ("introduced", strsJson (Qualify.introduced (ins ++ outs) nodes).eraseDups),
+          ("endsClean", toJson (Qualify.endsCleanB p)),
+          ("noSep", Json.arr ((Qualify.introduced (ins ++ outs) nodes).eraseDups.map (fun n => toJson (Qualify.noSepB n))).toArray)]
+    | "inits" =>
+        let inputs ← parseStrs (← req.getObjVal? "inputs")
+        let inits ← parseStrs (← req.getObjVal? "inits")
+        let n ← req.getObjValAs? Nat "n"
+        let r := Inits.toConstants ⟨inputs, inits, (List.range n).map Inits.INode.orig⟩
+        return Json.mkObj [
+          ("inputs", strsJson r.inputs), ("inits", strsJson r.inits),
+          ("nodes", Json.arr (r.nodes.map (fun (nd : Inits.INode) => match nd with
+              | .const nm => Json.arr #[Json.str "c", Json.str (String.ofList nm)]
+              | .orig k => Json.arr #[Json.str "o", toJson k])).toArray)]
     | _ => throw s!"unknown request {t}") with
   | .ok j => j
   | .error e => Json.mkObj [("error", e)]
